@@ -143,3 +143,68 @@ Proof.
     + apply format_IZR. lia.
     + rewrite <- abs_IZR. apply IZR_le. lia.
 Qed.
+
+(* ---- the variance of a level-1 entry (before sqrt and the cast) and its min / max ---- *)
+(* count == 1: the C writes v_var = 0.0; the model fp_var1 gives the same value *)
+Lemma fp_var1_single : forall x : R, fmt x -> fp_var1 [x] = 0.
+Proof.
+  intros x Fx. unfold fp_var1, fp_ssq2, fp_ssq_about, fp_mean2, fp_sum. cbn [fold_left length].
+  assert (E1 : RN (INR 1) = 1) by (rewrite RN_INR by lia; reflexivity).
+  rewrite E1. replace (0 + x) with x by ring. rewrite (RN_id x Fx).
+  replace (x / 1) with x by field. rewrite (RN_id x Fx).
+  replace (x - x) with 0 by ring. rewrite RN_0, Rmult_0_l, RN_0, Rplus_0_l, RN_0.
+  replace (0 / 1) with 0 by field. apply RN_0.
+Qed.
+
+Theorem fp_level1_var : forall (d sumdf : nat) (xs : list Q) (k : nat) (e : sq_ent) (M : R),
+  (1 <= d)%nat -> (1 <= sumdf)%nat -> (Z.of_nat d + 4 <= 2 ^ 26)%Z ->
+  stats_in_range dbl_max xs ->
+  bpow radix2 (-1022) <= M -> Forall (fun x => fmt (Q2R x) /\ Rabs (Q2R x) <= M) xs ->
+  nth_error (sq_levels d sumdf (map Some xs) 1) k = Some e ->
+  let w := firstn d (skipn (k * d) xs) in
+  exists v : Q, se_var e = Some v /\ (v == ssq_of w / qlen w)%Q /\
+    Rabs (fp_var1 (map Q2R w) - Q2R v) <=
+      (INR d + 6) * u64 * Q2R v + 3 * (((INR d + 3) * u64 * M) * ((INR d + 3) * u64 * M)) + 4 * eta64.
+Proof.
+  intros d sumdf xs k e M Hd Hs Hd26 Hr HM Hall Hnth w.
+  destruct (sq_C02_summary_exact d sumdf xs 1 k e Hd Hs ltac:(lia) Hr Hnth) as [Hlen [m [v [lo [hi [He [_ [Hv _]]]]]]]].
+  replace (d * sumdf ^ (1 - 1))%nat with d in Hlen by (cbn; lia).
+  replace (d * sumdf ^ (1 - 1))%nat with d in Hv by (cbn; lia).
+  fold w in Hlen, Hv.
+  exists v. split; [rewrite He; reflexivity|]. split; [exact Hv|].
+  assert (Hw : Forall (fun x => fmt (Q2R x) /\ Rabs (Q2R x) <= M) w).
+  { apply Forall_forall. intros x Hx. rewrite Forall_forall in Hall. apply Hall.
+    unfold w in Hx. rewrite <- (firstn_skipn (k * d) xs). apply in_or_app. right.
+    rewrite <- (firstn_skipn d (skipn (k * d) xs)). apply in_or_app. left. exact Hx. }
+  assert (Hne : w <> []) by (intro E; rewrite E in Hlen; cbn in Hlen; lia).
+  rewrite (Qeq_eqR _ _ Hv).
+  pose proof (fp_var1_error_Q M w HM Hne Hw ltac:(rewrite Hlen; exact Hd26)) as H.
+  cbv zeta in H. rewrite Hlen in H. exact H.
+Qed.
+
+(* min and max are samples: the binary64 values are exact, the (float) cast perturbs them *)
+Theorem fp_level1_minmax_f32 : forall (d sumdf : nat) (xs : list Q) (k : nat) (e : sq_ent),
+  (1 <= d)%nat -> (1 <= sumdf)%nat -> stats_in_range dbl_max xs ->
+  nth_error (sq_levels d sumdf (map Some xs) 1) k = Some e ->
+  let w := firstn d (skipn (k * d) xs) in
+  exists lo hi : Q, se_min e = Some lo /\ se_max e = Some hi /\ (lo == min_of w)%Q /\ (hi == max_of w)%Q /\
+    Rabs (RN32 (Q2R lo) - Q2R lo) <= u32 * Rabs (Q2R lo) + eta32 /\
+    Rabs (RN32 (Q2R hi) - Q2R hi) <= u32 * Rabs (Q2R hi) + eta32 /\
+    RN32 (Q2R lo) <= RN32 (Q2R hi).
+Proof.
+  intros d sumdf xs k e Hd Hs Hr Hnth w.
+  destruct (sq_C02_summary_exact d sumdf xs 1 k e Hd Hs ltac:(lia) Hr Hnth) as [Hlen [m [v [lo [hi [He [_ [_ [Hlo Hhi]]]]]]]]].
+  replace (d * sumdf ^ (1 - 1))%nat with d in Hlen, Hlo, Hhi by (cbn; lia).
+  fold w in Hlen, Hlo, Hhi.
+  exists lo, hi. split; [rewrite He; reflexivity|]. split; [rewrite He; reflexivity|].
+  split; [exact Hlo|]. split; [exact Hhi|].
+  split; [apply f32_store_gen|]. split; [apply f32_store_gen|].
+  apply f32_store_monotone. apply Qle_Rle.
+  assert (Hne : w <> []) by (intro E; rewrite E in Hlen; cbn in Hlen; lia).
+  destruct (min_le_mean_le_max w Hne) as [A B].
+  rewrite Hlo, Hhi. eapply Qle_trans; eassumption.
+Qed.
+
+(* a value that already is a binary32 number (float samples) is stored unchanged *)
+Theorem f32_store_exact : forall x : R, generic_format radix2 (FLT_exp (-149) 24) x -> RN32 x = x.
+Proof. intros x H. unfold RN32. apply round_generic; [apply valid_rnd_N|exact H]. Qed.
